@@ -238,7 +238,23 @@ def untracked_case(args):
     n_ops_before = len(getattr(x, "_ops", ()))
     n_ops_z = len(getattr(z, "_ops", ()))
 
+    # a view whose gradient exists only implicitly (its base holds one; the view's own has not been derived yet):
+    # reading it replays the view op on the base's gradient — inside a scope that must not disturb the scope's settings
+    vb = mg.tensor(xa)
+    vv = vb[0]
+    (vb * 2.0).sum().backward()
+    probe = rng.choice(["view-grad", "view-grad", "base", "repr", "none"])
+    inside = {}
+
     def body():
+        inside["before"] = globals_()
+        if probe == "view-grad":
+            inside["value"] = vv.grad
+        elif probe == "base":
+            inside["value"] = vv.base
+        elif probe == "repr":
+            inside["value"] = repr(vv)
+        inside["after"] = globals_()
         return op(x, y), op(z, y)
 
     if wrap == "with":
@@ -248,6 +264,11 @@ def untracked_case(args):
         r, rz = mg.no_autodiff(body)()
     if globals_() != (True, True):
         fails.append(f"switches not restored after untracked op {name}")
+    if inside.get("before") != inside.get("after"):
+        fails.append(f"untracked: reading {probe} of an existing view inside no_autodiff changed the switches from "
+                     f"{inside.get('before')} to {inside.get('after')}")
+    if probe == "view-grad" and (inside.get("value") is None or not np.array_equal(inside["value"], np.full(xa.shape[1:], 2.0))):
+        fails.append("untracked: the gradient of a view read inside no_autodiff is wrong")
     rd = r.data if isinstance(r, mg.Tensor) else np.asarray(r)
     if not isinstance(r, mg.Tensor):
         fails.append(f"untracked {name} returned {type(r).__name__}")
